@@ -1019,3 +1019,153 @@ Proof.
   apply complete_on_strictify; auto.
 Qed.
 End Final.
+
+(* ---------------------------------------------------------------------------------------------- *)
+(* 11. progress: with at least one vote and one alternative the longest axis is not empty           *)
+
+Lemma dedupN_complete l a : In a l -> In a (dedupN l).
+Proof.
+  induction l as [|x r IH]; [auto|]. simpl. intros [->|H]; [now left|].
+  destruct (N.eq_dec a x) as [->|Hne]; [now left|]. right. apply filter_In. split; [now apply IH|].
+  apply negb_true_iff. now apply N.eqb_neq.
+Qed.
+
+Lemma L_fold_prefix alts l st : exists ext, snd (fold_left (L_step alts) l st) = snd st ++ ext.
+Proof.
+  revert st. induction l as [|j l IH]; intros st; [exists []; now rewrite app_nil_r|].
+  cbn [fold_left]. destruct (IH (L_step alts st j)) as (ext & E). rewrite E.
+  destruct st as [[vc prev] acc]. unfold L_step. cbn [snd]. rewrite <- app_assoc. eauto.
+Qed.
+
+Lemma L1_nonempty alts votes a0 v0 : In a0 alts -> In v0 votes -> In a0 v0 ->
+  nth 0 (get_L_sets alts votes) [] <> [].
+Proof.
+  intros Ha Hv Hav. unfold get_L_sets. destruct alts as [|a1 alts']; [contradiction|].
+  cbn [length seq fold_left].
+  destruct (L_fold_prefix (a1 :: alts') (seq 2 (length alts')) (L_step (a1 :: alts') (votes, [], []) 1)) as (ext & E).
+  rewrite E. unfold L_step at 1. cbn [snd app nth].
+  set (g := fun a => negb (memN a []) && memN a (a1 :: alts')).
+  intros E0.
+  assert (Hin : In (last (filter g v0) 0%N) (dedupN (flat_map last_opt (map (filter g) votes)))).
+  { apply dedupN_complete. apply in_flat_map. exists (filter g v0). split; [now apply in_map|].
+    unfold last_opt. destruct (filter g v0) eqn:F; [|now left].
+    assert (In a0 (filter g v0)).
+    { apply filter_In. split; [assumption|]. unfold g. apply andb_true_iff. split; [reflexivity|]. now apply memN_In. }
+    rewrite F in H. contradiction. }
+  rewrite E0 in Hin. contradiction.
+Qed.
+
+Lemma last_check_single votes x : votes <> [] -> (forall v, In v votes -> NoDup v /\ In x v) ->
+  last_check votes [] x x = true.
+Proof.
+  intros Hne Hv. unfold last_check. cbn [is_nil negb app]. rewrite !andb_false_r. cbn [orb negb andb].
+  destruct votes as [|v0 votes']; [congruence|].
+  assert (M : memN x (flat_map (fun v => last_opt (filter (fun a => memN a [x; x]) (filter (fun a => memN a [x; x]) v)))
+                               (v0 :: votes')) = true).
+  { apply memN_last_opt. exists v0. destruct (Hv v0 (or_introl eq_refl)) as [Hnd Hx]. split; [now left|].
+    rewrite filter_filter_and. set (f := fun a => memN a [x; x] && memN a [x; x]).
+    assert (Fx : f x = true) by (unfold f; apply andb_true_iff; split; apply memN_In; now left).
+    destruct (last_filter_max v0 f 0%N Hnd x Hx Fx) as (E1 & E2 & _). split.
+    - intros E. assert (In x (filter f v0)) by (apply filter_In; auto). rewrite E in H. contradiction.
+    - unfold f in E2. apply andb_true_iff in E2. destruct E2 as [E2 _]. apply memN_In in E2.
+      simpl in E2. destruct E2 as [E2|[E2|[]]]; auto. }
+  now rewrite M.
+Qed.
+
+Definition lg_len (st : dp_state) : nat := pa_len (s_longest st).
+
+Section Progress.
+Variables (alts : list N) (votes : list (list N)).
+Variable pair_first : N -> N -> bool.
+Variable ext_order : list (list N) -> list (list N).
+Hypothesis Hext2 : forall l X, In X l -> In X (ext_order l).
+
+Lemma ext_step_mono A st X : lg_len st <= lg_len (ext_step pair_first votes A st X).
+Proof.
+  unfold ext_step, lg_len. destruct (place pair_first A X votes) as [A' [|]]; cbn [s_longest].
+  - destruct (Nat.ltb_spec (pa_len (s_longest st)) (pa_len A')); lia.
+  - destruct (negb (pa_eqb A' A) && (pa_len (s_locked st) <? pa_len A')); cbn [s_longest]; lia.
+Qed.
+
+Lemma fold_mono {T} (f : dp_state -> T -> dp_state) l st :
+  (forall s x, lg_len s <= lg_len (f s x)) -> lg_len st <= lg_len (fold_left f l st).
+Proof.
+  intros H. revert st. induction l as [|x l IH]; intros st; [simpl; lia|]. simpl.
+  eapply Nat.le_trans; [apply (H st x)|apply IH].
+Qed.
+
+Lemma key_step_mono i m Ls remaining st e :
+  lg_len st <= lg_len (key_step pair_first ext_order i m Ls votes remaining st e).
+Proof.
+  destruct e as [[bd Y] A]. unfold key_step.
+  destruct (pa_len A + length remaining <? pa_len (s_longest st)); [lia|].
+  apply fold_mono. intros s x. apply ext_step_mono.
+Qed.
+
+Lemma outer_step_mono m Ls st i :
+  lg_len (fst st) <= lg_len (fst (outer_step pair_first ext_order m Ls votes st i)).
+Proof.
+  destruct st as [s remaining]. unfold outer_step. cbn [fst]. apply fold_mono. intros s' x. apply key_step_mono.
+Qed.
+
+Lemma fold_reach {T} (f : dp_state -> T -> dp_state) l st x k :
+  (forall s y, lg_len s <= lg_len (f s y)) -> In x l -> (forall s, k <= lg_len (f s x)) ->
+  k <= lg_len (fold_left f l st).
+Proof.
+  intros Hm Hx Hk. revert st. induction l as [|y l IH]; intros st; [contradiction|]. simpl.
+  destruct Hx as [->|Hx]; [|now apply IH].
+  eapply Nat.le_trans; [apply (Hk st)|]. now apply fold_mono.
+Qed.
+
+Theorem longest_axis_nonempty : NoDup alts -> alts <> [] -> votes <> [] ->
+  (forall v, In v votes -> NoDup v /\ incl alts v) ->
+  fst (longest_axis pair_first ext_order alts votes) <> [].
+Proof.
+  intros Hnd Hane Hvne Hv. unfold longest_axis. cbv zeta. cbn [fst].
+  set (Ls := get_L_sets alts votes). set (m := length alts).
+  set (st0 := (mk_dp init_table pa_empty pa_empty, alts)).
+  set (stf := fst (fold_left (outer_step pair_first ext_order m Ls votes) (seq 1 m) st0)).
+  assert (H2 : 2 <= lg_len stf).
+  { unfold stf.
+    assert (Ha0 : exists a0, In a0 alts) by (destruct alts as [|a0 ?] eqn:Ea; [congruence|exists a0; now left]).
+    destruct Ha0 as (a0 & Ha0).
+    assert (Hv0 : exists v0, In v0 votes) by (destruct votes as [|v0 ?] eqn:Ev; [congruence|exists v0; now left]).
+    destruct Hv0 as (v0 & Hv0).
+    assert (Hm : exists m', m = S m') by (unfold m; destruct alts eqn:Ea; [congruence|simpl; eauto]).
+    destruct Hm as (m' & Hm). rewrite Hm. cbn [seq fold_left].
+    apply Nat.le_trans with (lg_len (fst (outer_step pair_first ext_order (S m') Ls votes st0 1))).
+    - (* the first round places a single alternative of L[1] on the empty axis *)
+      unfold outer_step, st0. cbn [fst s_cur init_table fold_left].
+      unfold key_step at 1. cbn [pa_len pa_empty fst snd length s_longest Nat.add].
+      replace (S (0 + 0) + length alts <? S (0 + 0)) with false by (symmetry; apply Nat.ltb_ge; lia).
+      assert (HL1 : nth 0 Ls [] <> []).
+      { apply (L1_nonempty alts votes a0 v0); auto. now apply (proj2 (Hv v0 Hv0)). }
+      destruct (nth 0 Ls []) as [|x L1'] eqn:EL; [congruence|].
+      assert (Hx : In x alts).
+      { apply (L_sets_incl alts votes (x :: L1')); [|now left].
+        fold Ls. rewrite <- EL. destruct (nth_in_or_default 0 Ls []) as [H|H]; [assumption|]. rewrite H in EL. discriminate. }
+      apply (fold_reach _ _ _ [x]).
+      + intros s y. apply ext_step_mono.
+      + unfold eligible. apply Hext2. apply nodup_In. cbn [Nat.sub]. rewrite EL. apply in_flat_map. exists x.
+        split; [now left|]. apply in_flat_map. exists x. split.
+        * apply dedupN_complete. apply in_or_app. left. now left.
+        * rewrite last_check_single; [|congruence|].
+          -- unfold mkset. rewrite N.eqb_refl. now left.
+          -- intros v Hin. split; [apply (Hv v Hin)|]. now apply (proj2 (Hv v Hin)).
+      + intros s. unfold ext_step, lg_len. cbn [place case_3 boundary pa_empty fst snd nth_error isS orb negb andb].
+        cbn [s_longest]. cbn [pa_len fst snd length Nat.add].
+        change (pa_len ([x], [])) with 2. destruct (Nat.ltb_spec (pa_len (s_longest s)) 2); [reflexivity|lia].
+    - apply (fold_left_inv (outer_step pair_first ext_order (S m') Ls votes)
+               (fun st => lg_len (fst (outer_step pair_first ext_order (S m') Ls votes st0 1)) <= lg_len (fst st))).
+      + intros i _ s' Hs'. eapply Nat.le_trans; [exact Hs'|apply outer_step_mono].
+      + lia. }
+  intros E.
+  assert (Hlen : 2 <= pa_len (if pa_len (s_longest stf) <? pa_len (s_locked stf) then s_locked stf else s_longest stf)).
+  { unfold lg_len in H2. destruct (Nat.ltb_spec (pa_len (s_longest stf)) (pa_len (s_locked stf))); lia. }
+  fold stf in E. unfold pa_elems, pa_len in *.
+  destruct (if S (length (fst (s_longest stf)) + length (snd (s_longest stf))) <?
+               S (length (fst (s_locked stf)) + length (snd (s_locked stf))) then s_locked stf else s_longest stf) as [l r].
+  cbn [fst snd] in *. apply app_eq_nil in E. destruct E as [E1 ->]. 
+  assert (l = []) by (destruct l; [reflexivity|]; simpl in E1; destruct (rev l); discriminate). subst. simpl in Hlen. lia.
+Qed.
+End Progress.
